@@ -14,6 +14,39 @@ impl<'w> FnTr<'w> {
         if p.path.segments.iter().any(|s| !s.arguments.is_none()) { return Err(self.err(e, "call with generic arguments")); }
         let args: Vec<&Expr> = c.args.iter().collect();
         let last = segs.last().unwrap().clone();
+        // --- a local closure `let f = |x| body;` called with a plain argument: the body with `x` bound to the argument ---
+        if segs.len() == 1 {
+            if let Some((_, pname, pty, body)) = self.local_closures.iter().rev().find(|c| c.0 == last).cloned() {
+                if args.len() != 1 { return Err(self.err(e, "wrong number of arguments")); }
+                let ax = self.tr_expr(args[0], Some(&pty))?;
+                if ax.ty != pty || !ax.pure || !ax.atomic { return Err(self.err(e, "the argument of a local closure must be a literal or a variable of the parameter type")); }
+                let mark = self.push_scope();
+                self.alias(&pname, &ax.text, pty.clone());
+                let r = self.tr_expr(&body, exp);
+                self.pop_scope(mark);
+                return r;
+            }
+        }
+        // --- tuple variant of a registered enum: `InvalidCapture(x)` ---
+        if segs.len() <= 2 && self.lookup(&last).is_none() && last.chars().next().map(|c| c.is_uppercase()).unwrap_or(false) && !["Some", "Ok", "Err"].contains(&last.as_str()) {
+            let en = if segs.len() == 2 { Some(segs[0].as_str()) } else { None };
+            if let Some((en, fields)) = self.find_variant(e, en, &last)? {
+                if fields.len() != args.len() || fields.iter().any(|(n, _)| !n.starts_with('_')) { return Err(self.err(e, "tuple-variant constructor with the wrong number of arguments / of a struct variant")); }
+                let mut xs = vec![];
+                let mut pure = true;
+                for (a, (_, fty)) in args.iter().zip(fields.iter()) {
+                    let x = self.tr_expr(a, Some(fty))?;
+                    if x.ty != *fty { return Err(self.err(e, &format!("argument of type {} where {} is expected", x.ty.rust(), fty.rust()))); }
+                    pure &= x.pure;
+                    xs.push(x.a());
+                }
+                let ty = RTy::Enum(en.clone());
+                self.note_ty_dep(&ty);
+                let mut r = Ex::pure(format!("{}.{} {}", en, last, xs.join(" ")), ty);
+                r.pure = pure;
+                return Ok(r);
+            }
+        }
         // --- std functions ---
         if segs.len() == 1 && (last == "max" || last == "min") {
             if self.lookup(&last).is_some() { return Err(self.err(e, "call of a local")); }
@@ -57,6 +90,17 @@ impl<'w> FnTr<'w> {
                 };
             }
         }
+        // --- `String::new()`, `char::from_digit(d, 10)` ---
+        if segs.len() == 2 && segs[0] == "String" && last == "new" && args.is_empty() { return Ok(Ex::atom("([] : List Char)", RTy::Str)); }
+        if segs.len() == 2 && segs[0] == "char" && last == "from_digit" && args.len() == 2 {
+            let ok = matches!(strip(args[1]), Expr::Lit(l) if matches!(&l.lit, syn::Lit::Int(i) if i.base10_digits() == "10"));
+            if !ok { return Err(self.err(e, "only `char::from_digit(d, 10)` is in the mapping table")); }
+            let x = self.tr_expr(args[0], Some(&RTy::Int(IntTy::U32)))?;
+            if x.ty != RTy::Int(IntTy::U32) { return Err(self.err(e, "`char::from_digit` of a non-u32")); }
+            let mut r = Ex::pure(format!("fromDigit10 {}", x.a()), RTy::Opt(Box::new(RTy::Char)));
+            r.pure = x.pure;
+            return Ok(r);
+        }
         // --- std collections (mapping table: see the header of Prelude.lean) ---
         if segs.len() == 2 && segs[0] == "VecDeque" && last == "new" && args.is_empty() {
             if !self.use_leafs.contains("VecDeque") { return Err(self.err(e, "`VecDeque` is not imported from std::collections in this file")); }
@@ -84,8 +128,16 @@ impl<'w> FnTr<'w> {
                     if !si.derives_default { return Err(self.err(e, "`default()` of a struct without `#[derive(Default)]`")); }
                     let mut fs = vec![];
                     for (f, fty) in &si.fields {
-                        let ty = resolve_type(self.world, fty, Some(&segs[0])).map_err(|m| self.err(e, &m))?;
-                        let v = match ty { RTy::Int(_) => "0", RTy::Bool => "false", _ => return Err(self.err(e, "`default()` of a field that is not an integer / bool")) };
+                        let ty = self.struct_field_type(fty, &segs[0]).map_err(|m| self.err(e, &m))?;
+                        let zero = |t: &RTy| -> Option<&'static str> { match t { RTy::Int(_) => Some("0"), RTy::U64 => Some("(0 : UInt64)"), RTy::Bool => Some("false"), _ => None } };
+                        let v = match &ty {
+                            // `[T; N]`: N copies of `T::default()`
+                            RTy::VecList(el) => {
+                                let n: Option<usize> = match fty { syn::Type::Array(a) => match &a.len { Expr::Lit(syn::ExprLit { lit: syn::Lit::Int(i), .. }) => i.base10_parse().ok(), _ => None }, _ => None };
+                                match (n, zero(el)) { (Some(n), Some(z)) => format!("List.replicate {} {}", n, z), _ => return Err(self.err(e, "`default()` of an array field whose length is not a literal / whose elements are not integers")) }
+                            }
+                            t => zero(t).ok_or_else(|| self.err(e, "`default()` of a field that is not an integer / bool / array of those"))?.to_string(),
+                        };
                         fs.push(format!("{} := {}", lean_ident(f), v));
                     }
                     let ty = RTy::Struct(segs[0].clone());
@@ -131,6 +183,12 @@ impl<'w> FnTr<'w> {
                         return Ok(r);
                     }
                     let ret = self.opaque_ret(e, o.ret)?;
+                    if args.is_empty() {
+                        // `Self::default()`: an opaque VALUE
+                        self.note_ty_dep(&ret);
+                        let n = self.lparam(&format!("Self_{}", last), ret.clone(), Origin::ParamMethod(usize::MAX, last.clone()), (usize::MAX - 1, 1, self.lparams.len()))?;
+                        return Ok(Ex::atom(n, ret));
+                    }
                     let mut xs = vec![];
                     let mut tys = vec![];
                     for a in &args {
@@ -138,6 +196,7 @@ impl<'w> FnTr<'w> {
                         tys.push(x.ty.lean_atom());
                         xs.push(x);
                     }
+                    self.note_ty_dep(&ret);
                     let fty = RTy::Opaque(format!("{} → {}", tys.join(" → "), ret.lean()));
                     let n = self.lparam(&last, fty, Origin::ParamMethod(usize::MAX, last.clone()), (usize::MAX - 1, 1, self.lparams.len()))?;
                     let mut r = Ex::pure(format!("{} {}", n, xs.iter().map(|x| x.a()).collect::<Vec<_>>().join(" ")), ret);
@@ -273,9 +332,19 @@ impl<'w> FnTr<'w> {
 
     pub fn tr_method(&mut self, e: &Expr, mc: &syn::ExprMethodCall, exp: Option<&RTy>) -> Res<Ex> {
         let method = mc.method.to_string();
-        if mc.turbofish.is_some() && method != "collect" { return Err(self.err(e, "method call with turbofish")); }
+        if mc.turbofish.is_some() && method != "collect" && method != "parse" { return Err(self.err(e, "method call with turbofish")); }
         let args: Vec<&Expr> = mc.args.iter().collect();
         let recv_name = path_ident(&mc.receiver);
+        // --- an arm of the `match` of a place alias: the value is the INDEX of the place (`x.pawns_ref()` -> `pawns_ref_index`) ---
+        if let (Some((px, psn, pf)), Some(rn)) = (self.place_value_of.clone(), &recv_name) {
+            if px == *rn {
+                if let Some(pi) = self.world.places.get(&(Some(psn.clone()), method.clone())).cloned() {
+                    match &pf { Some(f) if *f != pi.field => return Err(self.err(e, "the arms of a place `match` index different fields")), _ => {} }
+                    self.place_value_of = Some((px, psn, Some(pi.field.clone())));
+                    return self.call_translated(e, &pi.index_fn, None, &args);
+                }
+            }
+        }
         // --- opaque methods from the table ---
         if let (Some(rn), What::Fn { opaque, .. }) = (&recv_name, &self.target.what) {
             if let Some(o) = opaque.iter().find(|o| o.recv == rn && o.method == method) {
@@ -359,8 +428,57 @@ impl<'w> FnTr<'w> {
             let r = self.tr_expr(&mc.receiver, None)?;
             if matches!(r.ty, RTy::HashMap(_, _) | RTy::VecDeque(_)) { return self.tr_effect_call(e, mc, false); }
         }
+        // --- `ITER.map(F).find(P)` with an `F` that can panic (a translated function): iterator adaptors are lazy (`iterMapFind`) ---
+        if method == "find" && args.len() == 1 {
+            if let Expr::MethodCall(mm) = strip(&mc.receiver) {
+                if mm.method == "map" && mm.args.len() == 1 && mm.turbofish.is_none() {
+                    if let Some(r) = self.tr_map_find(e, &mm.receiver, &mm.args[0], args[0])? { return Ok(r); }
+                }
+            }
+        }
         // --- mapping table on primitive receivers ---
         let recv = self.tr_expr(&mc.receiver, None)?;
+        // an OPAQUE method / field accessor of a value of an opaque type (`captures.get(i)`, `m.range()`): an opaque FUNCTION
+        // parameter `Type_method` applied to the value and the translated arguments
+        if let (RTy::Opaque(tn), What::Fn { opaque, .. }) = (&recv.ty, &self.target.what) {
+            if let Some(base) = tn.strip_suffix('T') {
+                if let Some(o) = opaque.iter().find(|o| o.recv == base && o.method == method) {
+                    let ret = self.opaque_ret(e, o.ret)?;
+                    self.note_ty_dep(&ret);
+                    let want: Vec<&str> = crate::targets::OPAQUE_ARGS.iter().find(|(r, m, _)| *r == base && *m == method).map(|t| t.2.to_vec()).unwrap_or_default();
+                    if want.len() != args.len() { return Err(self.err(e, "wrong number of arguments for this opaque method (table `OPAQUE_ARGS`)")); }
+                    let mut xs = vec![recv.clone()];
+                    let mut tys = vec![recv.ty.lean_atom()];
+                    for (a, w) in args.iter().zip(want.iter()) {
+                        let wt: syn::Type = syn::parse_str(w).map_err(|_| self.err(e, "bad argument type in the table"))?;
+                        let wt = self.resolve_type(&wt)?;
+                        let x = self.tr_expr(a, Some(&wt))?;
+                        if x.ty != wt { return Err(self.err(e, &format!("argument of type {} where {} is expected", x.ty.rust(), wt.rust()))); }
+                        tys.push(x.ty.lean_atom());
+                        xs.push(x);
+                    }
+                    let name = format!("{}_{}", base, method);
+                    let fty = RTy::Opaque(format!("{} → {}", tys.join(" → "), ret.lean()));
+                    let n = self.lparam(&name, fty, Origin::ParamMethod(usize::MAX, name.clone()), (usize::MAX - 1, 1, self.lparams.len()))?;
+                    let mut r = Ex::pure(format!("{} {}", n, xs.iter().map(|x| x.a()).collect::<Vec<_>>().join(" ")), ret);
+                    r.pure = xs.iter().all(|x| x.pure);
+                    return Ok(r);
+                }
+            }
+        }
+        // `it.next()` on a mutable local iterator: the iterator is advanced BEFORE the statement the call occurs in (only where
+        // that is the evaluation order: head of a `let` initialiser / first `if` condition)
+        if let (RTy::Iter(t), "next", true) = (&recv.ty, method.as_str(), args.is_empty()) {
+            let n = recv_name.clone().ok_or_else(|| self.err(e, "`next` on something that is not a local iterator variable"))?;
+            let v = self.lookup(&n).cloned().ok_or_else(|| self.err(e, "unknown variable"))?;
+            if !v.mutable { return Err(self.err(e, "`next` on an immutable iterator")); }
+            if self.effect_allowed != Some(mc as *const _) { return Err(self.err(e, "`next` in an unsupported position (supported: the head of the method chain that is a whole `let` initialiser / first `if` condition)")); }
+            self.effect_allowed = None;
+            let r = self.fresh("item");
+            self.note_use(&v.lean);
+            self.pending.push(format!("let ({}, {}) := iterNext {}", r, v.lean, v.lean));
+            return Ok(Ex::atom(r, RTy::Opt(t.clone())));
+        }
         // a value of an OPAQUE TABLE type (`magics.get_attacks(sq, occ)`): its lookup function applied to the arguments
         if let RTy::Table(tn) = &recv.ty {
             let tt = crate::targets::TABLE_TYPES.iter().find(|t| t.0 == tn).ok_or_else(|| self.err(e, "bad table type"))?;
@@ -495,11 +613,55 @@ impl<'w> FnTr<'w> {
                 if args.len() != 2 { return Err(self.err(e, "wrong number of arguments")); }
                 let d = self.tr_expr(args[0], exp)?;
                 let (v, body) = self.tr_closure1(args[1], &t, Some(&d.ty))?;
-                if body.ty != d.ty || !body.pure || !d.pure { return Err(self.err(e, "`map_or` arguments must have the same type and cannot panic")); }
+                if body.ty != d.ty || !d.pure { return Err(self.err(e, "`map_or` arguments must have the same type and the default cannot panic")); }
+                if !body.pure {
+                    // the closure can panic: it only runs on `Some`
+                    return Ok(Ex::monadic(format!("(match {} with | some {} => {} | none => pure {})", recv.a(), v, body.as_option_term(), d.a()), d.ty.clone()));
+                }
                 let mut r = Ex::pure(format!("match {} with | some {} => {} | none => {}", recv.a(), v, body.text, d.a()), d.ty.clone());
                 r.pure = recv.pure;
                 Ok(r)
             }
+            (RTy::Opt(t), "map") => {
+                let t = (**t).clone();
+                if args.len() != 1 { return Err(self.err(e, "wrong number of arguments")); }
+                let (v, body) = self.tr_closure1(args[0], &t, None)?;
+                if !body.pure {
+                    return Ok(Ex::monadic(format!("optMapM (fun {} => {}) {}", v, body.as_option_term(), recv.a()), RTy::Opt(Box::new(body.ty.clone()))));
+                }
+                let mut r = Ex::pure(format!("{}.map (fun {} => {})", recv.a(), v, body.text), RTy::Opt(Box::new(body.ty.clone())));
+                r.pure = recv.pure;
+                Ok(r)
+            }
+            // `o.map_or_else(String::new, |s| ..)`
+            (RTy::Opt(t), "map_or_else") if args.len() == 2 && matches!(strip(args[0]), Expr::Path(p) if p.path.segments.len() == 2 && p.path.segments[0].ident == "String" && p.path.segments[1].ident == "new") => {
+                let t = (**t).clone();
+                let (v, body) = self.tr_closure1(args[1], &t, Some(&RTy::Str))?;
+                if body.ty != RTy::Str || !body.pure { return Err(self.err(e, "`map_or_else(String::new, f)` with an `f` that is not a string expression that cannot panic")); }
+                let mut r = Ex::pure(format!("match {} with | some {} => {} | none => ([] : List Char)", recv.a(), v, body.text), RTy::Str);
+                r.pure = recv.pure;
+                Ok(r)
+            }
+            (RTy::Int(t), "to_string") if args.is_empty() && !t.signed() => {
+                let mut r = Ex::pure(format!("uintToString {}", recv.a()), RTy::Str);
+                r.pure = recv.pure;
+                Ok(r)
+            }
+            (RTy::Res(t, _), "unwrap") if args.is_empty() => Ok(Ex::monadic(format!("resUnwrap {}", recv.a()), (**t).clone())),
+            (RTy::VecList(t), "iter") | (RTy::VecList(t), "into_iter") if args.is_empty() => { let mut r = recv.clone(); r.ty = RTy::Iter(t.clone()); Ok(r) }
+            (RTy::Iter(t), "filter") => {
+                let t = (**t).clone();
+                if args.len() != 1 { return Err(self.err(e, "wrong number of arguments")); }
+                let (v, body) = self.tr_closure1(args[0], &t, Some(&RTy::Bool))?;
+                if body.ty != RTy::Bool || !body.pure { return Err(self.err(e, "`filter` predicate must be a bool expression that cannot panic")); }
+                let mut r = Ex::pure(format!("{}.filter (fun {} => {})", recv.a(), v, body.text), recv.ty.clone());
+                r.pure = recv.pure;
+                Ok(r)
+            }
+            (RTy::Opt(_), "as_ref") if args.is_empty() => Ok(recv),
+            (RTy::Str, "clone") | (RTy::Str, "as_str") if args.is_empty() => Ok(recv),
+            // `x.unwrap_or_else(|| panic!(..))` = `x.unwrap()`
+            (RTy::Opt(t), "unwrap_or_else") if args.len() == 1 && matches!(args[0], Expr::Closure(c) if c.inputs.is_empty() && matches!(crate::stmt::strip_paren(&c.body), Expr::Macro(m) if m.mac.path.is_ident("panic"))) => Ok(Ex::monadic(recv.a(), (**t).clone())),
             (RTy::Duration, "as_secs") if args.is_empty() => {
                 let mut r = Ex::pure(format!("durAsSecs {}", recv.a()), RTy::Int(IntTy::U64));
                 r.pure = recv.pure;
@@ -519,6 +681,54 @@ impl<'w> FnTr<'w> {
             (RTy::Str, "to_string") | (RTy::Str, "to_owned") if args.is_empty() => Ok(recv),
             (RTy::Str, "len") if args.is_empty() => {
                 let mut r = Ex::pure(format!("strLen {}", recv.a()), RTy::Int(IntTy::Usize));
+                r.pure = recv.pure;
+                Ok(r)
+            }
+            // `s.parse::<u32>()`: a `Result<u32, ParseIntError>`, represented like an `Option` (`none` = `Err`; `is_err`/`is_ok`/`unwrap`)
+            // `s.parse()` where a `Fen` is expected (`impl FromStr for Fen`): the translated `Fen::from_str(&s)`
+            (RTy::Str, "parse") if args.is_empty() && mc.turbofish.is_none() => {
+                let info = self.world.fns.get(&(Some("Fen".to_string()), "from_str".to_string())).cloned().ok_or_else(|| self.err(e, "`parse()` without a registered `from_str`"))?;
+                match (&info.ret, exp) { (RTy::Res(t, _), Some(x)) if **t == *x => {} (RTy::Res(t, _), None) if Some(&**t) == Some(&self.ret) => {} _ => return Err(self.err(e, "`parse()` whose target type is not known to be `Fen`")) }
+                self.call_translated(e, &info, None, &[&mc.receiver])
+            }
+            (RTy::Str, "parse") if args.is_empty() => {
+                let ok = match &mc.turbofish { Some(tf) if tf.args.len() == 1 => matches!(&tf.args[0], syn::GenericArgument::Type(ty) if matches!(self.resolve_type(ty), Ok(RTy::Int(IntTy::U32)))), _ => false };
+                if !ok { return Err(self.err(e, "only `parse::<u32>()` is in the mapping table")); }
+                let mut r = Ex::pure(format!("parseU32 {}", recv.a()), RTy::Opt(Box::new(RTy::Int(IntTy::U32))));
+                r.pure = recv.pure;
+                Ok(r)
+            }
+            (RTy::Opt(_), "is_err") | (RTy::Opt(_), "is_ok") if args.is_empty() && matches!(strip(&mc.receiver), Expr::MethodCall(p) if p.method == "parse") => {
+                let mut r = Ex::pure(format!("{}.{}", recv.a(), if method == "is_err" { "isNone" } else { "isSome" }), RTy::Bool);
+                r.pure = recv.pure;
+                r.atomic = true;
+                Ok(r)
+            }
+            (RTy::Str, "contains") => {
+                let x = one_int_arg(self, &RTy::Char)?;
+                let mut r = Ex::pure(format!("strContains {} {}", recv.a(), x.a()), RTy::Bool);
+                r.pure = recv.pure && x.pure;
+                Ok(r)
+            }
+            (RTy::Str, "is_empty") if args.is_empty() => {
+                let mut r = Ex::pure(format!("{}.isEmpty", recv.a()), RTy::Bool);
+                r.pure = recv.pure; r.atomic = true;
+                Ok(r)
+            }
+            (RTy::Str, "split") => {
+                let x = one_int_arg(self, &RTy::Char)?;
+                let mut r = Ex::pure(format!("strSplit {} {}", x.a(), recv.a()), RTy::Iter(Box::new(RTy::Str)));
+                r.pure = recv.pure && x.pure;
+                Ok(r)
+            }
+            (RTy::Iter(t), "enumerate") if args.is_empty() => {
+                let mut r = Ex::pure(format!("iterEnumerate {}", recv.a()), RTy::Iter(Box::new(RTy::Tuple(vec![RTy::Int(IntTy::Usize), (**t).clone()]))));
+                r.pure = recv.pure;
+                Ok(r)
+            }
+            (RTy::Char, "is_uppercase") if args.is_empty() => Ok(Ex::monadic(format!("charIsUppercase {}", recv.a()), RTy::Bool)),
+            (RTy::Char, "to_ascii_lowercase") if args.is_empty() => {
+                let mut r = Ex::pure(format!("charToAsciiLowercase {}", recv.a()), RTy::Char);
                 r.pure = recv.pure;
                 Ok(r)
             }
@@ -542,6 +752,13 @@ impl<'w> FnTr<'w> {
                     Some(tf) if tf.args.len() == 1 => match &tf.args[0] { syn::GenericArgument::Type(ty) => self.resolve_type(ty)?, _ => return Err(self.err(e, "unsupported turbofish")) },
                     _ => match exp { Some(x) => x.clone(), None => return Err(self.err(e, "`collect` without a target type")) },
                 };
+                if want == RTy::Str {
+                    // `collect::<String>()` of chars
+                    if **t != RTy::Char { return Err(self.err(e, "`collect::<String>()` of items that are not chars")); }
+                    let mut r = recv.clone();
+                    r.ty = RTy::Str;
+                    return Ok(r);
+                }
                 let el = match want { RTy::VecFn(el) | RTy::VecList(el) => el, _ => return Err(self.err(e, "`collect` into something that is not a Vec")) };
                 if el != *t { return Err(self.err(e, "`collect` element type mismatch")); }
                 let mut r = recv.clone();
@@ -563,8 +780,41 @@ impl<'w> FnTr<'w> {
         }
     }
 
+    /// `ITER.map(F).find(P)`: `F` a path to a translated function of one argument (`Self::validate_rank`), `P` `Result::is_err` /
+    /// `Result::is_ok` or a pure closure
+    fn tr_map_find(&mut self, e: &Expr, iter: &Expr, f: &Expr, p: &Expr) -> Res<Option<Ex>> {
+        let fp = match strip(f) { Expr::Path(fp) if fp.qself.is_none() && fp.path.segments.len() <= 2 => fp, _ => return Ok(None) };
+        let segs: Vec<String> = fp.path.segments.iter().map(|s| s.ident.to_string()).collect();
+        let ns: Option<String> = match segs.len() { 1 => None, _ if segs[0] == "Self" => self.target.container.ns().map(|s| s.to_string()), _ => Some(segs[0].clone()) };
+        let info = match self.world.fns.get(&(ns, segs.last().unwrap().clone())).cloned() { Some(i) => i, None => return Ok(None) };
+        if info.rust_params.len() != 1 || info.rust_params[0] == "self" || !info.inout.is_empty() || !info.self_mutated.is_empty() { return Err(self.err(e, "`map` with a function that does not take exactly one plain argument")); }
+        let base = self.tr_expr(iter, None)?;
+        let el = match &base.ty { RTy::Iter(t) | RTy::VecList(t) => (**t).clone(), _ => return Err(self.err(e, "`map` on something that is not an iterator")) };
+        let mark = self.push_scope();
+        let v = self.fresh("x");
+        self.env.push(Var { rust: v.clone(), lean: v.clone(), ty: el.clone(), depth: self.depth, mutable: false, param: None, declared: true });
+        let arg: Expr = syn::parse_str(&v).map_err(|_| self.err(e, "internal: identifier"))?;
+        let call = self.call_translated(e, &info, None, &[&arg]);
+        self.pop_scope(mark);
+        let call = call?;
+        let pred = match strip(p) {
+            Expr::Path(pp) if pp.path.segments.len() == 2 && pp.path.segments[0].ident == "Result" && (pp.path.segments[1].ident == "is_err" || pp.path.segments[1].ident == "is_ok") => {
+                if !matches!(info.ret, RTy::Res(_, _)) { return Err(self.err(e, "`Result::is_err` on items that are not `Result`s")); }
+                if pp.path.segments[1].ident == "is_err" { "resIsErr".to_string() } else { "resIsOk".to_string() }
+            }
+            Expr::Closure(_) => {
+                let (b, body) = self.tr_closure1(p, &info.ret, Some(&RTy::Bool))?;
+                if body.ty != RTy::Bool || !body.pure { return Err(self.err(e, "`find` predicate must be a bool expression that cannot panic")); }
+                format!("(fun {} => {})", b, body.text)
+            }
+            _ => return Err(self.err(e, "unsupported `find` predicate")),
+        };
+        let m = call.m.clone().ok_or_else(|| self.err(e, "internal: call is not monadic"))?;
+        Ok(Some(Ex::monadic(format!("iterMapFind (fun {} => {}) {} {}", v, m, pred, base.a()), RTy::Opt(Box::new(info.ret.clone())))))
+    }
+
     /// `|x| body` / `|_| body` with one argument of type `t`; returns the Lean binder and the translated body
-    fn tr_closure1(&mut self, c: &Expr, t: &RTy, exp: Option<&RTy>) -> Res<(String, Ex)> {
+    pub fn tr_closure1(&mut self, c: &Expr, t: &RTy, exp: Option<&RTy>) -> Res<(String, Ex)> {
         let cl = match c { Expr::Closure(cl) => cl, _ => return Err(self.err(c, "closure expected")) };
         if cl.inputs.len() != 1 || cl.capture.is_some() || cl.asyncness.is_some() { return Err(self.err(c, "unsupported closure form")); }
         let mut pat = &cl.inputs[0];
